@@ -42,6 +42,9 @@ def variants(algo, tier):
         out.append(("fixed-0-and-last", {"init": "svd", "fixed_modes": "0,LAST"}, 2 if q else 5, False))
         out.append(("fixed-mode0-normalize", {"init": "random", "fixed_modes": [0], "normalize_factors": True}, 3 if q else 6, False))
         out.append(("rec_error-criterion", {"init": "svd", "cvg_criterion": "rec_error"}, 3 if q else 6, False))
+        # second tensor-algebra implementation (tl.tenalg backend 'einsum'): a configuration like any other
+        out.append(("einsum-normalize", {"init": "random", "normalize_factors": True, "tenalg": "einsum"}, 3 if q else 6, False))
+        out.append(("einsum-mask", {"init": "svd", "mask": "MASK", "tenalg": "einsum"}, 3 if q else 5, True))
     elif algo == "non_negative_parafac":
         for init in ("svd", "random"):
             out.append((f"plain-{init}", {"init": init}, 3 if q else 6, False))
@@ -51,6 +54,7 @@ def variants(algo, tier):
         out.append(("plain-svd", {"init": "svd"}, 3 if q else 5, False))
         out.append(("plain-random", {"init": "random"}, 3 if q else 5, False))
         out.append(("normalize", {"init": "random", "normalize_factors": True}, 2 if q else 5, False))
+        out.append(("einsum-normalize", {"init": "random", "normalize_factors": True, "tenalg": "einsum"}, 2 if q else 4, False))
         out.append(("sparsity", {"init": "svd", "sparsity_coefficients": "PERMODE:0.1"}, 2 if q else 5, False))
         out.append(("fixed-last", {"init": "random", "fixed_modes": "LAST"}, 2 if q else 4, False))
         out.append(("fixed-last-normalize", {"init": "random", "fixed_modes": "LAST", "normalize_factors": True}, 2 if q else 4, False))
@@ -69,6 +73,7 @@ def variants(algo, tier):
     elif algo == "tucker":
         out.append(("svd", {"init": "svd"}, 4 if q else 8, False))
         out.append(("random", {"init": "random"}, 4 if q else 8, False))
+        out.append(("einsum-random", {"init": "random", "tenalg": "einsum"}, 3 if q else 5, False))
         out.append(("mask", {"init": "random", "mask": "MASK"}, 3 if q else 5, True))
     elif algo == "non_negative_tucker":
         out.append(("svd", {"init": "svd"}, 3 if q else 6, True))
@@ -85,6 +90,7 @@ def variants(algo, tier):
         out.append(("nn-mode0", {"init": "random", "linesearch": False, "nn_modes": [0]}, 2 if q else 4, False))
         out.append(("linesearch", {"init": "random", "linesearch": True}, 9 if q else 13, False))
         out.append(("uneven-slices", {"init": "random", "linesearch": False, "slices": "UNEVEN"}, 3 if q else 5, False))
+        out.append(("einsum-normalize", {"init": "random", "linesearch": False, "normalize_factors": True, "tenalg": "einsum"}, 3 if q else 4, False))
     elif algo == "tensor_ring_als":
         out.append(("lstsq", {"ls_solve": "lstsq"}, 3 if q else 6, True))
         out.append(("normal_eq", {"ls_solve": "normal_eq"}, 3 if q else 6, True))
@@ -109,7 +115,7 @@ def shapes_for(algo, tier):
     if algo in ("parafac2", "cmtf"):
         return [(3, 4, 2), (2, 3, 3)] if q else [(3, 4, 2), (2, 3, 3), (4, 2, 3), (2, 2, 2)]
     if algo == "tensor_ring_als":
-        return [(3, 4, 2), (2, 3, 2, 2)] if q else [(3, 4, 2), (3, 3, 3), (2, 3, 2, 2), (4, 3)]
+        return [(3, 4, 2), (2, 3, 2, 2), (4, 2, 3)] if q else [(3, 4, 2), (3, 3, 3), (2, 3, 2, 2), (4, 3), (4, 2, 3)]
     if q:
         return [(4, 3), (3, 4, 2), (2, 3, 2, 2)]
     return [(4, 3), (2, 2), (3, 4, 2), (3, 3, 3), (2, 3, 2, 2), (2, 2, 2, 2)]
@@ -126,7 +132,8 @@ def families_for(algo, tier):
 def ranks_for(algo, shape, tier):
     if algo == "tensor_ring_als":
         n = len(shape)
-        return [[2] * (n + 1), [1] + [2] * (n - 1) + [1], [2, 1] + [2] * (n - 2) + [2]]
+        # the last one is a bottleneck bond next to a bond wider than its mode: the last core's design matrix is rank deficient
+        return [[2] * (n + 1), [1] + [2] * (n - 1) + [1], [2, 1] + [2] * (n - 2) + [2], [2, 1] + [3] * (n - 2) + [2]]
     if algo in ("tucker", "non_negative_tucker", "non_negative_tucker_hals"):
         n = len(shape)
         rs = [[1] * n, [2] * n, [min(2, s) if k % 2 else min(3, s) for k, s in enumerate(shape)]]
@@ -178,6 +185,16 @@ def true_error(algo, X, res, cfg, prevM=None):
         S = np.asarray(res.extra["sparse"])
         return float(np.linalg.norm(X - M - S) / np.linalg.norm(X))
     return itm.relerr(X, M)
+
+
+def tr_slack(X, cores):
+    """Forward rounding bound of ANY evaluation of the ring contraction: eps * prod ||G_k||_F / ||X|| (times a small constant).
+    Rank-deficient core updates (lstsq keeps a singular value just above its cutoff) produce cores of size 1e11 whose product
+    cancels to an O(1) tensor; two correct evaluations of that product then differ by this much, so equality is only demanded up to it."""
+    p = 1.0
+    for c in cores:
+        p *= float(np.linalg.norm(np.asarray(c)))
+    return 16 * np.finfo(float).eps * p / float(np.linalg.norm(X))
 
 
 class C06(Check):
@@ -289,7 +306,12 @@ class C06(Check):
                     continue
                 prevM = rp.dense
             te = true_error(algo, X, r, judge_cfg, prevM)
-            ok = abs(errs[-1] - te) <= atol * max(1.0, te if algo == "cmtf" else 1.0)
+            slack = 0.0
+            if algo.startswith("tensor_ring"):
+                slack = tr_slack(X, list(r.decomp))
+                if slack > atol:
+                    ctx.count("tr-iterate-with-huge-cancelling-cores:tolerance-widened-to-rounding-bound")
+            ok = abs(errs[-1] - te) <= atol * max(1.0, te if algo == "cmtf" else 1.0) + slack
             if algo == "cmtf" and not ok:
                 ok = abs(errs[-1] - 0.5 * te) <= atol * max(1.0, te)
             stopped_early = how != "cap" and len(errs) < 40
@@ -327,7 +349,8 @@ class C06(Check):
             if algo.startswith("tensor_ring"):
                 for j, (e, cores) in enumerate(r.extra["callback_iterates"]):
                     te_cb = itm.relerr(X, itm.tr_dense(cores))
-                    if not np.isfinite(e) or abs(e - te_cb) > atol:
+                    atol_tr = atol + tr_slack(X, cores)
+                    if not np.isfinite(e) or abs(e - te_cb) > atol_tr:
                         ctx.violation(f"{tag}/callback-error-not-error-of-callback-decomposition",
                                       f"{case}: callback call #{j} got error {e!r}, recomputed {te_cb!r}")
                         break
